@@ -82,12 +82,22 @@ def read_spec(draw, cfg: Cfg, field: str, version: int, allow_group=True):
         if version >= 3:
             kinds += ["gtxns", "rel"]
             kinds += ["gtxns_self", "gtxns_gi"]
+            if cfg.profile == "modelled":
+                kinds += ["rel_split"]
         if cfg.group_heavy:
             kinds = ["txn"] * 2 + ["gtxn"] * 3 + (["gtxns"] * 2 + ["rel"] * 4 + ["gtxns_self"] * 2 + ["gtxns_gi"] if version >= 3 else [])
+            if version >= 3 and cfg.profile == "modelled":
+                kinds += ["rel_split"]
     kind = draw(st.sampled_from(kinds))
     spec: Dict[str, Any] = {"kind": kind, "field": field}
     if kind in ("gtxn", "gtxns", "gtxns_gi"):
         spec["idx"] = draw(st.sampled_from([0, 0, 1, 1, 2, 3, 15]))
+    elif kind == "rel_split":
+        # the index computation is spread over two blocks: the tool cannot attribute the read (opaque)
+        spec["off"] = draw(st.sampled_from([1, 1, 2, 15]))
+        spec["sign"] = draw(st.sampled_from(["+", "-", "-"]))
+        spec["order"] = draw(st.integers(0, 1)) if spec["sign"] == "+" else 0
+        spec["split"] = draw(st.sampled_from([1, 1, 2]))
     elif kind == "rel":
         spec["off"] = draw(st.sampled_from([1, 1, 2, 3, 15, 0] if cfg.group_heavy else [1, 1, 2, 3, 15]))
         spec["sign"] = draw(st.sampled_from(["+", "+", "-"]))
@@ -333,6 +343,19 @@ class Lower:
                 self.emit(I("gtxn", s["idx"], "GroupIndex"))
                 self.emit(I("gtxns", s["field"]))
                 self.feats.append("read_gtxns_via_gtxn_groupindex")
+            elif k == "rel_split":
+                first, second = I("txn", "GroupIndex"), I("int", s["off"])
+                if s.get("order"):
+                    first, second = second, first
+                seq = [first, second, I(s["sign"]), I("gtxns", s["field"])]
+                nxt = self.lab()
+                for x in seq[:s["split"]]:
+                    self.emit(x)
+                self.emit(I("b", nxt))
+                self.emit(L(nxt))
+                for x in seq[s["split"]:]:
+                    self.emit(x)
+                self.feats.append("read_relative_split_over_blocks")
             elif k == "rel":
                 if s.get("order"):
                     self.emit(I("int", s["off"]))
@@ -766,7 +789,7 @@ def _use_intcblock(lw: Lower, how: int):
     for it in lw.items:
         if it[0] == "I" and it[1] in ("int", "pushint"):
             k = consts.index(parse_int_tok(it[2][0]))
-            if k < 4 and how in (1, 3):
+            if k < 4 and how in (1, 3, 4):
                 it[1], it[2] = f"intc_{k}", []
             else:
                 it[1], it[2] = "intc", [str(k)]
@@ -778,6 +801,16 @@ def _use_intcblock(lw: Lower, how: int):
             if it[0] == "L" and it[1] == "main_start":
                 pos = k + 1
                 lw.feats.append("intcblock_not_in_entry_block")
+                break
+    if how == 4:
+        # one intcblock in the entry block and a second one, with the constants rotated, at the start of the
+        # first subroutine: from the first call on every intc pushes another constant. Valid TEAL (the last
+        # intcblock executed counts); the annotations no longer describe the conditions, so only checks whose
+        # reference is R-AVM use this form
+        for k, it in enumerate(lw.items):
+            if it[0] == "L" and it[1] == "sub0" and len(consts) >= 2:
+                lw.items.insert(k + 1, I("intcblock", *(consts[1:] + consts[:1])))
+                lw.feats.append("second_intcblock_in_subroutine")
                 break
     lw.items.insert(pos, I("intcblock", *consts))
     lw.feats.append("intcblock")
@@ -792,7 +825,8 @@ DETECTOR_FIELDS = {
 
 @st.composite
 def semantic_program(draw, profile: str = "modelled", disabled=(), focus: Optional[List[str]] = None,
-                     mode: Optional[str] = None, max_stmts: int = 12, with_ast: bool = False, pinned: bool = False):
+                     mode: Optional[str] = None, max_stmts: int = 12, with_ast: bool = False, pinned: bool = False,
+                     second_intcblock: bool = False):
     cfg = Cfg(profile, disabled, focus, mode)
     version = draw(st.sampled_from([8, 8, 8, 7, 6, 5, 4, 4, 3, 2]))
     if pinned:
@@ -847,6 +881,8 @@ def semantic_program(draw, profile: str = "modelled", disabled=(), focus: Option
     if (cfg.profile == "direct" or not cfg.on("intcblock_not_in_entry_block")) and ast["intcblock"] == 3:
         # exactness is only claimed where the tool can know the constants (one intcblock, entry block)
         ast["intcblock"] = 1
+    if second_intcblock and cfg.profile == "modelled" and nsubs and draw(st.integers(0, 2)) == 0:
+        ast["intcblock"] = 4
     prog = lower_program(ast, cfg)
     if chain:
         prog["features"] = sorted(set(prog["features"]) | {"deep_call_chain"})
